@@ -595,8 +595,8 @@ def q2_guard(prog, ctx, tag):
                         loops.append(n)
                     n = n._parent
                 if not (isinstance(st.op, ast.Add) and isinstance(st.value, ast.Constant) and st.value.value == 1 and len(loops) == 1
-                        and isinstance(loops[0], ast.For) and src(loops[0].iter) in ("range(len(%s))" % g.args.args[1].arg,
-                                                                                      g.args.args[1].arg, "reversed(%s)" % g.args.args[1].arg)):
+                        and isinstance(loops[0], ast.For) and any(src(loops[0].iter) in ("range(len(%s))" % a_.arg, a_.arg, "reversed(%s)" % a_.arg)
+                                                                  for a_ in g.args.args if a_.arg not in ("self", "cls"))):
                     ok = False
                 else:
                     # at most one increment per iteration: no second increment of the counter in the same loop body on one path
